@@ -26,6 +26,7 @@
 #include "x_LRUSet.c"
 typedef int V;
 #endif
+#include "stubs/C12_umap.h"   /* already included by the extracted type header (include guard); named here so that the evidence scan sees its assumptions */
 
 #define CAT_(a, b) a##_##b
 #define CAT(a, b) CAT_(a, b)
